@@ -89,7 +89,6 @@ def fam_compute_numeric_partials(cls, arity, label, bounded):
             S = spec.supplies(I, slf, pt)
             if res.outcome[0] == "ret":
                 emit("returns=>D", ["C07", "C02"], d.D)
-                emit("returns=>S", ["C14"], S)
                 v1 = acc_view(I, acc.fields["_numeric_partials"], k)
                 emit("accumulates", ["C04"], v1 == g["view0"] + real_term(m) * d.dV(k), extra=H.child_facts(I, pt, [k]))
             else:
@@ -127,7 +126,6 @@ def route_post(I, res, emit, e, pt, x, props=("C03", "C06"), extract=None):
     if res.outcome[0] == "ret":
         r = res.outcome[1] if extract is None else extract(res.outcome[1])
         emit("returns=>D", ["C07", "C06"], d.D)
-        emit("returns=>S", ["C14"], S)
         if not is_num(r):
             emit("returns-number", ["C17"], z3.BoolVal(False), info=repr(r))
             return
@@ -244,7 +242,6 @@ def fam_numeric_partials_entry():
                 dct = res.outcome[1]
                 d = spec.den(I, e, pt)
                 emit("returns=>D", ["C07"], d.D)
-                emit("returns=>S", ["C14"], spec.supplies(I, e, pt))
                 I.ghost["result_dict"] = dct
             else:
                 route_post(I, res, emit, e, pt, k, props=("C04",))
